@@ -1,6 +1,7 @@
 package harness
 
 import (
+	"sync"
 	"bytes"
 	"context"
 	"os"
@@ -254,6 +255,7 @@ type srvRun struct {
 	maxBusy time.Duration
 	repoBase int // goroutines running code of the tree under test when the server is idle
 	arpSeen map[uint32]int // requests seen per address in this round
+	arpMu   sync.Mutex
 	noise   int // ARP traffic that is no answer to a probe: 1 runt frames, 2 answers about other hosts, 3 probes by others for the same address
 }
 
@@ -287,11 +289,16 @@ func startServer(t *testing.T, cfg srvCfg) (*srvRun, error) {
 			time.AfterFunc(time.Millisecond, func() { s.seg.Inject(rsocks.KindARP, other) })
 		}
 		if r, ok := s.arp[target]; ok {
+			s.arpMu.Lock() // handlers of overlapping packets probe concurrently
 			s.arpSeen[target]++
-			if s.arpSeen[target] <= r.skip { // misses the first requests of a probe
+			deaf := s.arpSeen[target] <= r.skip // misses the first requests of a probe
+			if !deaf {
+				s.arpSeen[target] = 0 // the answer ends this probe; the address may be probed again in the same round
+			}
+			s.arpMu.Unlock()
+			if deaf {
 				return
 			}
-			s.arpSeen[target] = 0 // the answer ends this probe; the address may be probed again in the same round
 			r.delay -= time.Duration(r.skip) * 200 * time.Millisecond
 			reply := make([]byte, 28)
 			if r.pad {
@@ -359,7 +366,9 @@ func (s *srvRun) round(pkt []byte, arp []arpResp) roundObs {
 		}
 	}
 	s.arp = map[uint32]arpResp{}
+	s.arpMu.Lock()
 	s.arpSeen = map[uint32]int{}
+	s.arpMu.Unlock()
 	for _, a := range arp {
 		s.arp[a.ip] = a
 	}
@@ -808,6 +817,11 @@ func (g *srvGen) next() ([]byte, []arpResp, *simClient, byte) {
 				m.siaddr, m.yiaddr = g.someAddr(), g.someAddr()
 			}
 		}
+	}
+	if g.r2 != nil && kind == 3 && src != 0 && g.r2.Intn(6) == 0 {
+		// a renewal / rebinding whose ciaddr is not the address it comes from (a multi-homed or confused client): what counts is the
+		// IP source; the reply goes to the assigned address (or to broadcast), never to whatever ciaddr says
+		m.ciaddr = g.someAddr()
 	}
 	if g.r2 != nil && g.r2.Intn(14) == 0 {
 		// the server's own hardware address in chaddr, whatever the kind of message and whatever client identifier comes with it:
